@@ -1,7 +1,25 @@
 (** Pins for C05: the statements written out, so that no theorem is weakened quietly. *)
-From TucModel Require Import Base.Bytes Base.ListX Model.Bounds Model.BoundsParse Model.Scan Model.Opt
-     Model.CutBytes Model.CutStr Model.CutLines Spec.Fields Proofs.ScanSplit Proofs.C05 Properties.C05.
+From TucModel Require Import Base.Bytes Base.ListX Model.Bounds Model.BoundsParse Model.Scan Model.Utf8 Model.Opt
+     Model.CutBytes Model.CutStr Model.CutLines Spec.Fields Proofs.C06 Proofs.ScanSplit Proofs.C05 Proofs.Plain
+     Proofs.C03Full Proofs.C05Full Properties.C05.
+Local Open Scope Z_scope.
 
+Check C05_forward_reader_prints_the_selection :
+  forall (o : opt) (L : list bytes) (bs : list bof),
+    L <> [] -> bs <> [] -> fwd_ok 1 (Z.of_nat (length L)) bs -> last_marked bs ->
+    (N.eqb (o_eol o) LF = true -> Forall (fun l => utf8_valid l = true) L) ->
+    exists x, spec_items L (o_fallback o) (o_join o) [o_eol o] bs = Some x
+              /\ fwd_lines o L bs false 0 [] = Done (x ++ [o_eol o]).
+Print Assumptions C05_forward_reader_prints_the_selection.
+
+Check C05_buffered_reader_prints_the_same :
+  forall (o : opt) (input : bytes) (bs : list bof) (x : bytes),
+    plain_opts o (o_eol o) -> o_trim o = None -> o_only_delimited o = false -> o_replace o = None ->
+    items (o_bounds o) = bs -> Forall item_nz bs ->
+    utf8_valid input = true -> input <> [] -> strip_one_suffix (o_eol o) input <> [] ->
+    spec_items (records (o_eol o) input) (o_fallback o) (o_join o) [o_eol o] bs = Some x ->
+    cut_lines_buffered o input = Some (Done (x ++ [o_eol o])).
+Print Assumptions C05_buffered_reader_prints_the_same.
 
 Check C05_lines_of_the_forward_reader :
   forall (eol : byte) (input : bytes), records eol input = drop_last_empty (split_on eol input).
